@@ -333,7 +333,10 @@ c07 = with_shared(_c07, [(_c03, {'C03.e': 'C07.n'}, 'every parameter has a regis
                          (_c03, {'C03.f': 'C07.j'}, 'a call enters the routine of the latest definition under that name, so the lines visited and the variables listed are those of the routine the source calls')])
 c08 = with_shared(_c08, [(_c06, {'C06.b': 'C08.f', 'C06.c': 'C08.f2', 'C06.e': 'C08.g'}, 'the VM never adds a location: enable/clear only touch listed locations; locations are keyed by an order that keeps distinct (file, line) pairs apart'),
                          (_c05, {'C05.a': 'C08.f3'}, 'the VM writes only opcodes at listed sites')])
-c16 = with_shared(_c16, [(c17, {'C17.Z1': 'C16.O4'}, 'a reset machine has no activations, so the activation bound also holds across resets'),
+c16 = with_shared(_c16, [(_c05, {'C05.b': 'C16.O7'}, 'every instruction, a breakpoint marker included, advances the machine: a halting program also halts when it is stepped'),
+                         (c17, {'C17.Z3': 'C16.O8'}, 'the end of the program is recognised as "the opcode at ip is HALT": a driver that runs until isDone() ends exactly when the program halted'),
+                         (_c08, {'C08.a': 'C16.O9'}, 'arming a line rewrites only marker instructions: the counter initialisation of a LOOP is never overwritten, so the number of iterations is the bound at entry'),
+                         (c17, {'C17.Z1': 'C16.O4'}, 'a reset machine has no activations, so the activation bound also holds across resets'),
                          (_c03, {'C03.g': 'C16.O5'}, 'every jump is resolved to a set label of its own routine: an unresolved jump would land on the root PREPARE and push activations without bound'),
                          (c20, {'C20.A1': 'C16.O6'}, 'register values never become negative, so a LOOP counter that is decremented reaches zero')])
 _c09, _c12, _c14, _c17, _c18, _c20 = c09, c12, c14, c17, c18, c20
@@ -341,10 +344,22 @@ c09 = with_shared(_c09, [(_c12, {'C12.f': 'C09.j'}, 'every definition is matched
 c12 = with_shared(_c12, [(_c09, {'C09.h': 'C12.h'}, 'conflicts are judged against the grammar of the language: the pattern grammar derives exactly the language\'s values, argument lists and statement sequences')])
 c14 = with_shared(_c14, [(c15, {'C15.I4': 'C14.S5'}, 'an include is replaced by the tokens of the named file exactly once per directive: a file that is being scanned is not entered again'),
                          (_c02, {'C02.f': 'C14.S6'}, 'synthesised tokens (the final end-of-file token) are labelled with the position of the last scanned token')])
-c17 = with_shared(_c17, [(_c06, {'C06.b': 'C17.Z5'}, 'the enabled set and the armed sites change together: disabling one location leaves the others listed, so reset() can disarm them')])
-c18 = with_shared(_c18, [(_c02, {'C02.p': 'C18.P9'}, 'no value is read before it was written: results do not depend on what happened to be in memory')])
-c20 = with_shared(_c20, [(c11, {'C11.c': 'C20.A5'}, 'a range error recorded by any stage makes the compilation incorrect: the errors of every stage are merged before correctness is decided')])
+c17 = with_shared(_c17, [(_c08, {'C08.a': 'C17.Z6', 'C08.b': 'C17.Z7'}, 'reset() puts POTENTIAL_BREAK at every listed site: the listed sites are exactly the marker instructions, otherwise a reset machine runs a different program than a fresh one'),
+                         (_c06, {'C06.d': 'C17.Z8'}, 'before execution starts and after a reset the current location is none: the lookup is exact (ip - 1 is no site)'),
+                         (_c06, {'C06.b': 'C17.Z5'}, 'the enabled set and the armed sites change together: disabling one location leaves the others listed, so reset() can disarm them')])
+c18 = with_shared(_c18, [(_c08, {'C08.c': 'C18.P11'}, 'observers (the disassembler, the VM\'s queries) do not write the program\'s tables: listing or inspecting a program leaves it the program that was compiled'),
+                         (_c02, {'C02.p': 'C18.P9'}, 'no value is read before it was written: results do not depend on what happened to be in memory')])
+c20 = with_shared(_c20, [(_c02, {'C02.e': 'C20.A6'}, 'a recorded range error rejects the source: correctness is decided after the errors of every stage were merged'),
+                         (c11, {'C11.c': 'C20.A5'}, 'a range error recorded by any stage makes the compilation incorrect: the errors of every stage are merged before correctness is decided')])
 _c19 = c19
+_c15 = c15
+c15 = with_shared(_c15, [(_c02, {'C02.e': 'C15.I8'}, 'a reported include problem rejects the source: correctness is decided after the scanner\'s errors were merged')])
+_c11 = c11
+c11 = with_shared(_c11, [(_c02, {'C02.e': 'C11.e'}, 'the too-many-substitutions error makes the result incorrect: correctness is decided after the errors of macro application were merged')])
+c12 = with_shared(c12, [(_c11, {'C11.c': 'C12.j'}, 'the conflict errors of macro application reach the caller: parse() forwards the errors of every stage'),
+                        (_c02, {'C02.e': 'C12.i'}, 'a reported ambiguity makes the result incorrect: correctness is decided after the errors of macro application were merged')])
+_c10 = c10
+c10 = with_shared(_c10, [(_c11, {'C11.a': 'C10.e'}, 'every rewriting step has a pass number of its own: at most one rewrite per iteration of the budget loop, whose counter is the number the temporaries are named after')])
 c19 = with_shared(_c19, [(c17, {'C17.Z1': 'C19.F4'}, 'reset() returns the data memory and the activation stack to the constructor state: frames of calls that were pending at the reset are released'),
                          (_c03, {'C03.g': 'C19.F5'}, 'every jump of compiled code is resolved to a label of its own routine, so an activation that was entered is left through its RET and its frame is released'),
                          (_c04, {'C04.e': 'C19.F6'}, 'marks are resolved per routine and unknown marks rejected: no jump leaves a routine without returning')])
